@@ -227,8 +227,8 @@ def run_check(prop, tier, seed, replay):
     if st['harness'] == 'ok' and lean_ok:
         for c in P.get('campaigns', []):
             n = c['n_thorough'] if tier == 'thorough' else c['n_quick']
-            r = run_campaign(c['profile'], seed, n, tier)
-            camp.append({'profile': c['profile'], 'n': n, 'ops': r.get('ops', 0), 'wall_s': r.get('wall_s', 0)})
+            r = run_campaign(c['profile'], seed, n, tier, extra=c.get('extra'))   # 'extra': additional harness flags of this campaign (e.g. -histblocks 64)
+            camp.append({'profile': c['profile'], 'n': n, 'ops': r.get('ops', 0), 'wall_s': r.get('wall_s', 0), **({'extra': c['extra']} if c.get('extra') else {})})
             total_ops += r.get('ops', 0)
             hist_n += r.get('n_histories', 0)
             for k, v in (r.get('stats') or {}).items():
